@@ -191,6 +191,14 @@ def run_case(case):
                     f.write('\n'.join(text_lines) + ('\n' if text_lines else ''))
                 if parse_dump_file(path, hdr, strf) != lines:
                     rec['file_same'] = False
+                if which < 2 and k % 3 == 0 and fmt == ['bmc', 'pre'][(k // 3) % 2]:
+                    # the same file through the real dump.py started as a real process in one of the ordinary
+                    # environments (python -O, a POSIX locale, relative paths ...)
+                    variant = seams.PROC_ROTATION[(k // 12) % len(seams.PROC_ROTATION)]
+                    res = seams.run_cli_proc([path, '-t', t], variant, tool='dump')
+                    if res['out'] != ''.join(x + '\n' for x in lines) or res['exit'] != 0:
+                        rec['file_same'] = False
+                        rec['process'] = '%s: exit %s, %s' % (variant, res['exit'], (res['err'] or '')[-200:])
                 os.remove(path)
         except ValueError as e:
             rec['shape_ok'] = False
